@@ -86,7 +86,7 @@ Qed.
 Theorem fcc_emits_its_characters i str s :
   text_eqb (mnem i) FCC_t = true -> text_eqb (mnem i) FCB_t = false -> text_eqb (mnem i) FDB_t = false ->
   text_eqb (mnem i) RMB_t = false -> text_eqb (mnem i) ORG_t = false ->
-  Forall (fun c => 16 <= c /\ c < 256) str ->
+  Forall (fun c => c < 256) str ->
   exists p, translate_operand (OPseudo s (VStr str)) i = Ok p /\
             emit_value (cp_op p) = Ok [] /\ emit_value (cp_post p) = Ok [] /\ emit_value (cp_add p) = Ok str /\
             cp_size p = N.of_nat (length str).
@@ -95,9 +95,9 @@ Proof.
   eexists. split; [reflexivity|]. unfold data_pkg; cbn [cp_op cp_post cp_add cp_size].
   repeat split; try reflexivity; [now apply string_emits_its_characters|].
   unfold v_byte_len, v_hex_len. f_equal.
-  assert (L : length (concat (map hexdigits str)) = (2 * length str)%nat).
-  { clear -Hc. induction str as [|c s IH]; [reflexivity|]. inversion Hc as [|? ? [A B] Hs]; subst. cbn [map concat].
-    rewrite app_length, (IH Hs). rewrite hexdigits_lt256 by assumption. cbn [length]. lia. }
+  assert (L : length (concat (map (fmt_hex 2) str)) = (2 * length str)%nat).
+  { clear -Hc. induction str as [|c s IH]; [reflexivity|]. inversion Hc as [|? ? A Hs]; subst. cbn [map concat].
+    rewrite app_length, (IH Hs). rewrite fmt_hex_2 by assumption. cbn [length]. lia. }
   rewrite L. symmetry. apply Nat.div_unique with 0%nat; lia.
 Qed.
 
